@@ -55,7 +55,7 @@ MODELLED = {
                                'ECDHKeyExchange._non_zero_check', 'ECDHKeyExchange.calc_shared_key',
                                'ECDHKeyExchange._get_fun_gen_size'],
     'tlslite/utils/python_dsakey.py': ['Python_DSAKey.sign', 'Python_DSAKey.verify', 'Python_DSAKey.hashAndSign',
-                                       'Python_DSAKey.hashAndVerify'],
+                                       'Python_DSAKey.hashAndVerify', 'Python_DSAKey.generate', 'Python_DSAKey.generate_qp'],
     'tlslite/utils/x25519.py': ['decodeUCoordinate', 'decodeScalar22519', 'decodeScalar448', 'cswap',
                                 'x25519', 'x448', '_x25519_generic'],
     'tlslite/utils/cryptomath.py': ['bytesToNumber', 'numberToByteArray', 'divceil', 'secureHash'],
